@@ -76,7 +76,7 @@ const SHIM_METHODS: [&str; 36] = [
 ];
 
 // path calls renamed to free shim functions
-const SHIM_PATHS: [(&str, &str); 15] = [
+const SHIM_PATHS: [(&str, &str); 16] = [
     ("metadata", "rws_metadata"),
     ("File::open", "rws_file_open"),
     ("IpAddr::from_str", "rws_ipaddr_from_str"),
@@ -92,6 +92,7 @@ const SHIM_PATHS: [(&str, &str); 15] = [
     ("String::from", "rws_string_from"),
     ("env::args", "rws_env_args"),
     ("std::fs::read_to_string", "rws_fs_read_to_string"),
+    ("TcpListener::bind", "rws_tcp_bind"),
 ];
 
 // R-WORLD: the functions that read or write the process environment (the one piece of global state of the start-up code) get
